@@ -15,6 +15,8 @@ import (
 	"testing"
 	"time"
 
+	"github.com/alicebob/miniredis/v2"
+	"github.com/alicebob/miniredis/v2/server"
 	"github.com/oauth2-proxy/oauth2-proxy/v7/pkg/apis/options"
 	sessionsapi "github.com/oauth2-proxy/oauth2-proxy/v7/pkg/apis/sessions"
 	"github.com/oauth2-proxy/oauth2-proxy/v7/pkg/encryption"
@@ -61,6 +63,7 @@ func driveC09(t *testing.T, out *vEmitter) {
 	defer vC09MaxAgeHosts(t, out)
 	defer vC09NoRefreshToken(t, out)
 	defer vC09EntryExpiresDuringRefresh(t, out)
+	defer vC09RealRedisTTL(t, out)
 	r := vRand()
 	secret := "0123456789abcdefghijklmnopqrstuv"
 	name := "_oauth2_proxy"
@@ -439,6 +442,69 @@ func vC09MaxAgeHosts(t *testing.T, out *vEmitter) {
 					}
 					out.Obs("max-age-hosts", true, vL(vS(h), vStrs(domains), vBool(redis), vBool(big), vI(int64(n))))
 					out.Stat("maxage_host_cases", 1)
+				}
+			}
+		}
+	}
+}
+
+// vC09RealRedisTTL: through the REAL redis client (go-redis over miniredis): whatever single command of a save fails on
+// the wire, no entry is left in the store without the session's lifetime as its TTL - the store's own limit on a
+// session must not depend on a second command arriving.
+func vC09RealRedisTTL(t *testing.T, out *vEmitter) {
+	mr, err := miniredis.Run()
+	if err != nil {
+		out.Stat("miniredis_unavailable", 1)
+		return
+	}
+	defer mr.Close()
+	for _, expire := range []time.Duration{2 * time.Hour, 90 * time.Second} {
+		expire := expire
+		e := vNewEnv(t, vEnvCfg{oidc: true, mod: func(o *options.Options) {
+			o.Session.Type = options.RedisSessionStoreType
+			o.Session.Redis.ConnectionURL = "redis://" + mr.Addr()
+			o.Cookie.Expire = expire
+			o.Cookie.Refresh = 0
+			o.Providers[0].OIDCConfig.InsecureSkipNonce = true
+		}})
+		for _, failCmd := range []string{"", "PEXPIRE", "EXPIRE", "PEXPIREAT", "EXPIREAT", "SET", "SETEX", "PSETEX"} {
+			for _, rewrite := range []bool{false, true} {
+				mr.FlushAll()
+				b := e.newBrowser("https://app.example.com")
+				if rewrite {
+					b.seedSession("user@example.com", time.Minute, 20) // an entry is there already; the save below overwrites it
+				}
+				failed := 0
+				mr.Server().SetPreHook(func(c *server.Peer, cmd string, args ...string) bool {
+					if failCmd != "" && strings.ToUpper(cmd) == failCmd {
+						failed++
+						c.WriteError("ERR injected store fault")
+						return true
+					}
+					return false
+				})
+				func() {
+					defer func() { _ = recover() }() // seedSession fails the driver on a save error: here an error is an expected outcome
+					rw := httptest.NewRecorder()
+					req := httptest.NewRequest("GET", "https://app.example.com/", nil)
+					if ch := b.cookieHeader("/"); ch != "" {
+						req.Header.Set("Cookie", ch)
+					}
+					created := time.Now()
+					_ = e.p.sessionStore.Save(rw, req, &sessionsapi.SessionState{CreatedAt: &created, Email: "user@example.com", User: "u", AccessToken: "at", RefreshToken: "rt"})
+				}()
+				mr.Server().SetPreHook(nil)
+				for _, k := range mr.Keys() {
+					if strings.HasSuffix(k, ".lock") {
+						continue
+					}
+					ttl := mr.TTL(k)
+					out.Obs("real-redis-ttl", true, vL(vI(int64(expire/time.Second)), vS(failCmd), vBool(rewrite), vI(int64(ttl/time.Second))))
+					out.Stat("real_redis_ttl_entries", 1)
+					if ttl <= 0 || ttl > expire+time.Second {
+						out.Violation("lifetime/store-entry-without-lifetime", "a server-side session entry is in the store without the session's lifetime as its TTL",
+							map[string]interface{}{"cookie_expire": expire.String(), "ttl": ttl.String(), "failed_command": failCmd, "commands_failed": failed, "entry_existed_before": rewrite})
+					}
 				}
 			}
 		}
